@@ -265,6 +265,9 @@ Qed.
 Section Proofs.
 Variable rt : bool -> Z -> Z.
 Variable view : Z -> Z -> Z.
+(* the keys of which the caller may have changed a LOADED object in place (open finding F-AL): for them the cache entry
+   need not be what the file holds.  [fun _ => False]: no such change; [fun _ => True]: anything goes. *)
+Variable T : key -> Prop.
 Notation back := (back rt).
 Notation seen := (seen rt view).
 Notation step := (step rt view).
@@ -281,7 +284,7 @@ Record Inv (s : store) : Prop := {
   inv_ksf : find ks_key (file_of s) = None;
   inv_fnodup : NoDup (map fst (file_of s));
   inv_noov : forall k k', In k (keys s) -> In k' (keys s) -> strict_prefix k k' = false;   (* no key extends another *)
-  inv_cache : forall k i, find k (cache s) = Some i -> exists n, find k (file_of s) = Some n /\ seen (filt s) n = i;
+  inv_cache : forall k i, find k (cache s) = Some i -> exists n, find k (file_of s) = Some n /\ (seen (filt s) n = i \/ T k);
   inv_filt : 0 <= filt s                                           (* the handle's filter is one the constructor accepted *)
 }.
 
@@ -532,10 +535,14 @@ Proof.
   apply key_eqb_eq in E2. subst k'. intros H. inversion H; subst. eauto.
 Qed.
 
+(* the in-place changes of loaded objects in a history concern only keys of [T] *)
+Definition mut_ok (o : op) : Prop := forall k j, o = Mutate k j -> T k.
+Fixpoint muts_ok (ops : list op) : Prop := match ops with [] => True | o :: r => mut_ok o /\ muts_ok r end.
+
 (* C19_inv, one step: EVERY operation - accepted or rejected - preserves the invariant *)
-Theorem step_inv s o : Inv s -> Inv (fst (step s o)).
+Theorem step_inv s o : Inv s -> mut_ok o -> Inv (fst (step s o)).
 Proof.
-  intros I. destruct o as [k d|k|k|k d| |f]; simpl.
+  intros I HT. destruct o as [k d|k|k|k d| |f|k j]; simpl.
   - now apply write_inv.
   - now apply load_inv.
   - now apply remove_inv.
@@ -543,10 +550,19 @@ Proof.
   - destruct I; constructor; simpl; try assumption. discriminate.
   - destruct (f <? 0) eqn:Ef; [assumption|]. apply Z.ltb_ge in Ef. simpl.
     rewrite <- (inv_ks _ I). destruct I; constructor; simpl; try assumption; [reflexivity | discriminate].
+  - (* the caller changed a loaded object: the cache entry of k is no longer what the file holds *)
+    destruct (find k (cache s)) as [i0|] eqn:Ec; [|assumption].
+    destruct (inv_cache _ I k i0 Ec) as [n [Hn _]].
+    destruct I; constructor; simpl; try assumption.
+    intros k' i. destruct (key_eqb k k') eqn:E.
+    + apply key_eqb_eq in E. subst k'. intros _. exists n. split; [assumption | right; apply (HT k j eq_refl)].
+    + apply key_eqb_neq in E. intros H. apply find_del_sub in H. auto.
 Qed.
 
-Theorem run_inv ops : forall s, Inv s -> Inv (run s ops).
-Proof. induction ops as [|o r IH]; intros s I; simpl; [assumption|]. apply IH. now apply step_inv. Qed.
+Theorem run_inv ops : forall s, Inv s -> muts_ok ops -> Inv (run s ops).
+Proof.
+  induction ops as [|o r IH]; intros s I H; simpl; [assumption|]. destruct H as [H1 H2]. apply IH; [now apply step_inv | assumption].
+Qed.
 
 (* ---------------------------------------------------------------------------------------------------------- *)
 (* OBSERVATIONAL EQUALITY: same keys, same persisted keys, same content under every key (the cache and the order of the
@@ -600,15 +616,23 @@ Proof.
 Qed.
 
 (* the value a successful load returns is what the file holds, seen through the handle's filter (cache coherence) *)
-Lemma load_value s k : Inv s -> In k (keys s) -> k <> ks_key ->
+Lemma load_value s k : Inv s -> ~ T k -> In k (keys s) -> k <> ks_key ->
   exists n, find k (file_of s) = Some n /\ snd (load s k) = Loaded (seen (filt s) n).
 Proof.
-  intros I Hk Hks. destruct (proj1 (inv_dom _ I k) Hk) as [H|H]; [contradiction|].
+  intros I HT Hk Hks. destruct (proj1 (inv_dom _ I k) Hk) as [H|H]; [contradiction|].
   destruct (find k (file_of s)) as [n|] eqn:E; [|congruence]. exists n. split; [reflexivity|].
   unfold load. rewrite (proj2 (memk_In _ _) Hk), (proj2 (key_eqb_neq _ _) Hks). simpl.
   destruct (find k (cache s)) as [i|] eqn:Ec.
-  - destruct (inv_cache _ I k i Ec) as [m [Hm Hb]]. rewrite E in Hm. inversion Hm; subst. reflexivity.
+  - destruct (inv_cache _ I k i Ec) as [m [Hm [Hb|Hb]]]; [|contradiction]. rewrite E in Hm. inversion Hm; subst. reflexivity.
   - now rewrite E.
+Qed.
+(* whatever the caller did to loaded objects: a key of the artifact can be loaded *)
+Lemma load_loaded s k : Inv s -> In k (keys s) -> k <> ks_key -> exists v, snd (load s k) = Loaded v.
+Proof.
+  intros I Hk Hks. destruct (proj1 (inv_dom _ I k) Hk) as [H|H]; [contradiction|].
+  destruct (find k (file_of s)) as [n|] eqn:E; [|congruence].
+  unfold load. rewrite (proj2 (memk_In _ _) Hk), (proj2 (key_eqb_neq _ _) Hks). simpl.
+  destruct (find k (cache s)) as [i|]; [simpl; eauto|]. rewrite E. simpl. eauto.
 Qed.
 Lemma load_file s k : file_of (fst (load s k)) = file_of s /\ keys (fst (load s k)) = keys s /\
                       keyspace (fst (load s k)) = keyspace s /\ filt (fst (load s k)) = filt s.
@@ -640,11 +664,12 @@ Proof.
 Qed.
 Lemma step_filt s o : filt (fst (step s o)) = match o with Reopen f => if f <? 0 then filt s else f | _ => filt s end.
 Proof.
-  destruct o as [k d|k|k|k d| |f]; simpl; try reflexivity; try (destruct (f <? 0); reflexivity).
+  destruct o as [k d|k|k|k d| |f|k j]; simpl; try reflexivity; try (destruct (f <? 0); reflexivity).
   - apply write_filt.
   - apply (load_file s k).
   - apply remove_filt.
   - apply replace_filt.
+  - destruct (find k (cache s)); reflexivity.
 Qed.
 
 (* same keys, same persisted keys, same (unfiltered) content under every key, same filter on the handle *)
@@ -652,33 +677,37 @@ Definition sim (s1 s2 : store) : Prop := sim0 s1 s2 /\ filt s1 = filt s2.
 Lemma sim_refl s : sim s s.
 Proof. split; [apply sim0_refl | reflexivity]. Qed.
 
-Lemma step_sim s1 s2 o : Inv s1 -> Inv s2 -> sim s1 s2 ->
+Definition is_mutate (o : op) : bool := match o with Mutate _ _ => true | _ => false end.
+
+Lemma step_sim s1 s2 o : (forall k, ~ T k) -> Inv s1 -> Inv s2 -> sim s1 s2 ->
   snd (step s1 o) = snd (step s2 o) /\ sim (fst (step s1 o)) (fst (step s2 o)).
 Proof.
-  intros I1 I2 [S Hfl].
-  assert (Hfl' : filt (fst (step s1 o)) = filt (fst (step s2 o))) by (rewrite !step_filt; destruct o as [| | | | |f]; try congruence; destruct (f <? 0); congruence).
+  intros HT I1 I2 [S Hfl].
+  assert (Hfl' : filt (fst (step s1 o)) = filt (fst (step s2 o))) by (rewrite !step_filt; destruct o as [| | | | |f|]; try congruence; destruct (f <? 0); congruence).
   cut (snd (step s1 o) = snd (step s2 o) /\ sim0 (fst (step s1 o)) (fst (step s2 o))).
   { intros [A B]. split; [assumption | split; assumption]. }
-  destruct o as [k d|k|k|k d| |f]; simpl.
+  destruct o as [k d|k|k|k d| |f|k j]; simpl.
   - now apply write_sim0.
   - destruct (load_file s1 k) as [A1 [A2 [A3 _]]]. destruct (load_file s2 k) as [B1 [B2 [B3 _]]].
     destruct S as [Hf [Hs Hk]]. split; [|unfold sim0; rewrite A1, A2, A3, B1, B2, B3; auto].
     destruct (memk k (keys s1)) eqn:Em.
     + apply memk_In in Em. destruct (key_dec k ks_key) as [E|E].
       * subst k. unfold load. rewrite <- Hk, (proj2 (memk_In _ _) Em), key_eqb_refl. reflexivity.
-      * destruct (load_value s1 k I1 Em E) as [n1 [F1 L1]]. rewrite Hk in Em.
-        destruct (load_value s2 k I2 Em E) as [n2 [F2 L2]]. rewrite L1, L2, Hfl. rewrite (Hf k) in F1. congruence.
+      * destruct (load_value s1 k I1 (HT k) Em E) as [n1 [F1 L1]]. rewrite Hk in Em.
+        destruct (load_value s2 k I2 (HT k) Em E) as [n2 [F2 L2]]. rewrite L1, L2, Hfl. rewrite (Hf k) in F1. congruence.
     + unfold load. rewrite <- Hk, Em. reflexivity.
   - now apply remove_sim0.
   - now apply replace_sim0.
   - destruct S as [Hf [Hs Hk]]. repeat split; assumption.
   - destruct S as [Hf [Hs Hk]]. destruct (f <? 0); simpl; repeat split; assumption.
+  - (* with no tainted key allowed, a Mutate cannot occur in an invariant-preserving history; it keeps sim anyway *)
+    destruct S as [Hf [Hs Hk]]. destruct (find k (cache s1)); destruct (find k (cache s2)); simpl; repeat split; assumption.
 Qed.
 
-Theorem sim_outs ops : forall s1 s2, Inv s1 -> Inv s2 -> sim s1 s2 -> outs s1 ops = outs s2 ops.
+Theorem sim_outs ops : (forall k, ~ T k) -> muts_ok ops -> forall s1 s2, Inv s1 -> Inv s2 -> sim s1 s2 -> outs s1 ops = outs s2 ops.
 Proof.
-  induction ops as [|o r IH]; intros s1 s2 I1 I2 S; simpl; [reflexivity|].
-  destruct (step_sim s1 s2 o I1 I2 S) as [E S']. rewrite E. f_equal. apply IH; try assumption; now apply step_inv.
+  intros HT. induction ops as [|o r IH]; intros Hm s1 s2 I1 I2 S; simpl; [reflexivity|]. destruct Hm as [Hm1 Hm2].
+  destruct (step_sim s1 s2 o HT I1 I2 S) as [E S']. rewrite E. f_equal. apply IH; try assumption; now apply step_inv.
 Qed.
 
 (* ---------------------------------------------------------------------------------------------------------- *)
@@ -698,7 +727,7 @@ Proof.
             (forall k i, find k (cache (fst (step s o))) = Some i -> find k (cache s) = Some i) /\
             (bad_replace o = false -> fst (step s o) = s)).
   { intros E. rewrite E. split; [apply sim_refl | auto]. }
-  destruct o as [k d|k|k|k d| |f]; simpl in *; try discriminate.
+  destruct o as [k d|k|k|k d| |f|k j]; simpl in *; try discriminate.
   - destruct (write_cases s k d I) as [[H _]|[n [_ [_ [_ [_ H]]]]]]; [auto | rewrite H in Hr; discriminate].
   - apply Heq. unfold load in *. destruct (memk k (keys s)); simpl in *; [|reflexivity].
     destruct (key_eqb k ks_key); [reflexivity|]. destruct (find k (cache s)); [reflexivity|].
@@ -714,12 +743,15 @@ Proof.
     + rewrite H in Hr. discriminate.
   - (* a refused constructor: the old handle stays *)
     apply Heq. destruct (f <? 0); [reflexivity | discriminate].
+  - destruct (find k (cache s)); discriminate.
 Qed.
 
 (* ... hence no later operation sequence can tell that the rejected operation was ever attempted *)
-Theorem rejected_indistinguishable s o e ops : Inv s -> snd (step s o) = Rej e -> outs (fst (step s o)) ops = outs s ops.
+Theorem rejected_indistinguishable s o e ops : (forall k, ~ T k) -> muts_ok ops -> Inv s -> snd (step s o) = Rej e ->
+  outs (fst (step s o)) ops = outs s ops.
 Proof.
-  intros I Hr. symmetry. apply sim_outs; [assumption | now apply step_inv | apply (rejected_unchanged s o e I Hr)].
+  intros HT Hm I Hr. symmetry. apply sim_outs; try assumption; [|apply (rejected_unchanged s o e I Hr)].
+  apply step_inv; [assumption|]. intros k j ->. simpl in Hr. destruct (find k (cache s)); discriminate.
 Qed.
 
 (* the listed reasons are indeed rejected *)
@@ -795,7 +827,7 @@ Proof.
   { intros k. apply existsb_set. apply (keys_set s m I HR). }
   assert (Hsome : forall k, is_some (find k m) = true <-> In k (keys s) /\ k <> ks_key).
   { intros k. rewrite <- (HR k). apply (file_some_iff s k I). }
-  destruct o as [k d|k|k|k d| |f]; cbn [Artifact.step spec_step].
+  destruct o as [k d|k|k|k d| |f|k j]; cbn [Artifact.step spec_step].
   - (* write *)
     destruct (write_cases s k d I) as [[Hs [Hr Hno]]|[n [Hn [Hk [Hv [Ho Hw]]]]]].
     + rewrite Hs, Hr. destruct (node_of d) as [n|] eqn:En; [|auto].
@@ -820,7 +852,7 @@ Proof.
     destruct (memk k (keys s)) eqn:Em.
     + apply memk_In in Em. destruct (key_dec k ks_key) as [E|E].
       * subst k. unfold load. rewrite (proj2 (memk_In _ _) Em), key_eqb_refl. simpl. now rewrite orb_true_r.
-      * destruct (load_value s k I Em E) as [n [_ Hl]]. rewrite Hl. simpl.
+      * destruct (load_loaded s k I Em E) as [v Hl]. rewrite Hl. simpl.
         now rewrite (proj2 (Hsome k) (conj Em E)).
     + unfold load. rewrite Em. simpl. apply memk_false in Em.
       assert (Hn : is_some (find k m) = false).
@@ -853,12 +885,13 @@ Proof.
       rewrite !find_del_other by congruence. apply HR.
   - split; [intros k; apply HR | reflexivity].
   - rewrite Z.leb_antisym. destruct (f <? 0); simpl; (split; [intros k; apply HR | reflexivity]).
+  - destruct (find k (cache s)); simpl; (split; [intros k'; apply HR | reflexivity]).
 Qed.
 
-Theorem run_refines ops : forall s m, Inv s -> R s m -> R (run s ops) (spec_run m ops).
+Theorem run_refines ops : forall s m, Inv s -> muts_ok ops -> R s m -> R (run s ops) (spec_run m ops).
 Proof.
-  induction ops as [|o r IH]; intros s m I HR; simpl; [assumption|].
-  apply IH; [now apply step_inv | apply (step_refines s m o I HR)].
+  induction ops as [|o r IH]; intros s m I Hm HR; simpl; [assumption|]. destruct Hm as [Hm1 Hm2].
+  apply IH; [now apply step_inv | assumption | apply (step_refines s m o I HR)].
 Qed.
 
 Lemma R_init : R init [].
@@ -870,7 +903,7 @@ Theorem keys_loadable_reopen s : Inv s ->
   (forall k, In k (keys s) <-> is_rej (snd (load s k)) = false) /\
   (forall f, keys (fst (step s (Reopen f))) = keys s) /\
   (* a load through the handle returns the stored content seen through the handle's filter; the content itself is whole *)
-  (forall k v, k <> ks_key ->
+  (forall k v, k <> ks_key -> ~ T k (* no loaded object of k was changed in place: open finding F-AL *) ->
      (snd (load s k) = Loaded v <-> exists n, find k (file_of s) = Some n /\ v = seen (filt s) n /\ abs s k = Some (back n))).
 Proof.
   intros I. split; [|split; [|split]].
@@ -879,22 +912,22 @@ Proof.
   - intros k. split.
     + intros H. destruct (key_dec k ks_key) as [E|E].
       * subst k. unfold load. now rewrite (proj2 (memk_In _ _) H), key_eqb_refl.
-      * destruct (load_value s k I H E) as [n [_ Hl]]. now rewrite Hl.
+      * destruct (load_loaded s k I H E) as [v Hl]. now rewrite Hl.
     + intros H. destruct (memk k (keys s)) eqn:Em; [now apply memk_In|]. unfold load in H. rewrite Em in H. discriminate.
   - intros f. simpl. destruct (f <? 0); [reflexivity|]. simpl. symmetry. apply (inv_ks _ I).
-  - intros k v Hks. split.
+  - intros k v Hks HT. split.
     + intros H. destruct (memk k (keys s)) eqn:Em.
-      * apply memk_In in Em. destruct (load_value s k I Em Hks) as [n [Hf Hl]]. rewrite Hl in H. inversion H; subst.
+      * apply memk_In in Em. destruct (load_value s k I HT Em Hks) as [n [Hf Hl]]. rewrite Hl in H. inversion H; subst.
         exists n. unfold abs. rewrite Hf. auto.
       * unfold load in H. rewrite Em in H. discriminate.
     + intros [n [Hf [Hv Ha]]]. assert (Hk : In k (keys s)) by (apply (abs_some_iff s k I); now rewrite Ha).
-      destruct (load_value s k I Hk Hks) as [n' [Hf' Hl]]. rewrite Hl. congruence.
+      destruct (load_value s k I HT Hk Hks) as [n' [Hf' Hl]]. rewrite Hl. congruence.
 Qed.
 
 (* operations on other keys leave a key's content alone *)
 Lemma spec_untouched m o k : touches k o = false -> find k (fst (spec_step m o)) = find k m.
 Proof.
-  destruct o as [k' d|k'|k'|k' d| |f]; simpl; intros H; try reflexivity; apply key_eqb_neq in H.
+  destruct o as [k' d|k'|k'|k' d| |f|k' j]; simpl; intros H; try reflexivity; apply key_eqb_neq in H.
   - destruct (node_of d); [|reflexivity].
     destruct (valid_key k' && negb (key_eqb k' ks_key) && negb (is_some (find k' m)) && _); [|reflexivity].
     simpl. rewrite find_app. simpl. rewrite (proj2 (key_eqb_neq _ _) H). now destruct (find k m).
@@ -910,53 +943,72 @@ Qed.
 
 (* LOAD RETURNS THE ROUNDTRIP OF THE LAST WRITTEN DATA: after an accepted write / replace of [d] under [k], and any
    further operations none of which writes, removes or replaces [k], loading [k] returns [back (node d)] *)
-Theorem load_last_written s o0 k d n post : Inv s -> (o0 = Write k d \/ o0 = Replace k d) -> node_of d = Some n ->
-  snd (step s o0) = Done -> (forall o, In o post -> touches k o = false) ->
-  find k (file_of (run s (o0 :: post))) = Some n /\
-  snd (step (run s (o0 :: post)) (Load k)) = Loaded (seen (filt (run s (o0 :: post))) n).
+(* after an accepted write / replace the file holds exactly the node given - and the cache holds nothing for the key *)
+Lemma written_node s o0 k d n : Inv s -> (o0 = Write k d \/ o0 = Replace k d) -> node_of d = Some n ->
+  snd (step s o0) = Done ->
+  find k (file_of (fst (step s o0))) = Some n /\ find k (cache (fst (step s o0))) = None.
 Proof.
-  intros I Ho Hn Hd Hpost.
+  intros I Ho Hn Hd. destruct Ho as [-> | ->]; simpl in *.
+  - destruct (write_cases s k d I) as [[_ [Hr _]]|[n' [Hn' [Hk [_ [_ Hw]]]]]]; [rewrite Hd in Hr; discriminate|].
+    rewrite Hw. simpl. assert (n' = n) by congruence. subst n'. split.
+    + rewrite find_snoc_fresh, key_eqb_refl; [reflexivity|].
+      destruct (find k (file_of s)) eqn:E; [|reflexivity]. exfalso. apply Hk. apply (inv_dom _ I). right. congruence.
+    + destruct (find k (cache s)) as [i|] eqn:E; [|reflexivity]. exfalso. destruct (inv_cache _ I k i E) as [m [Hm _]].
+      apply Hk. apply (inv_dom _ I). right. congruence.
+  - destruct (replace_cases s k d I) as [[_ [Hr _]]|[[n0 [_ [_ [_ [_ H]]]]]|[n' [_ [_ [Hn' H]]]]]].
+    + rewrite Hd in Hr. discriminate.
+    + rewrite H in Hd. discriminate.
+    + rewrite H. simpl. assert (n' = n) by congruence. subst n'. split.
+      * now rewrite (find_snoc_fresh _ _ _ _ (find_del_same k (file_of s))), key_eqb_refl.
+      * apply find_del_same.
+Qed.
+
+(* a key nobody writes, removes or replaces, and of which no loaded object is changed in place, loads as what the file
+   holds, seen through the handle's filter *)
+Lemma load_untouched s k n post : Inv s -> find k (file_of s) = Some n ->
+  (forall o, In o post -> touches k o = false) -> muts_ok post -> ~ T k ->
+  find k (file_of (run s post)) = Some n /\ snd (step (run s post) (Load k)) = Loaded (seen (filt (run s post)) n).
+Proof.
+  intros I Hf Hpost Hm HT.
   assert (HR : R s (file_of s)) by (intros k'; reflexivity).
-  destruct (step_refines s (file_of s) o0 I HR) as [HR1 Hrej]. rewrite Hd in Hrej. simpl in Hrej.
-  assert (I1 : Inv (fst (step s o0))) by (now apply step_inv).
-  assert (Hk : find k (fst (spec_step (file_of s) o0)) = Some n).
-  { destruct Ho as [-> | ->]; simpl in *; rewrite Hn in *.
-    - destruct (valid_key k && negb (key_eqb k ks_key) && negb (is_some (find k (file_of s))) && _) eqn:C; [|discriminate].
-      simpl. apply andb_true_iff in C. destruct C as [C _]. apply andb_true_iff in C. destruct C as [_ C3].
-      apply negb_true_iff in C3.
-      rewrite find_snoc_fresh, key_eqb_refl; [reflexivity|]. destruct (find k (file_of s)); [discriminate | reflexivity].
-    - destruct (is_some (find k (file_of s))); [|discriminate]. simpl.
-      now rewrite (find_snoc_fresh _ _ _ _ (find_del_same k (file_of s))), key_eqb_refl. }
-  assert (I2 : Inv (run s (o0 :: post))) by (simpl; now apply run_inv).
-  assert (Hk2 : find k (file_of (run s (o0 :: post))) = Some n).
-  { simpl. rewrite (run_refines post _ _ I1 HR1 k). now rewrite spec_run_untouched. }
+  assert (I2 : Inv (run s post)) by (now apply run_inv).
+  assert (Hk2 : find k (file_of (run s post)) = Some n).
+  { rewrite (run_refines post _ _ I Hm HR k). now rewrite spec_run_untouched. }
   split; [exact Hk2|].
   assert (Hks : k <> ks_key).
   { intros ->. rewrite (inv_ksf _ I2) in Hk2. discriminate. }
-  assert (Hin : In k (keys (run s (o0 :: post)))) by (apply (inv_dom _ I2); right; congruence).
-  destruct (load_value _ k I2 Hin Hks) as [n' [Hf Hl]]. simpl in *. rewrite Hl. congruence.
+  assert (Hin : In k (keys (run s post))) by (apply (inv_dom _ I2); right; congruence).
+  destruct (load_value _ k I2 HT Hin Hks) as [n' [Hf' Hl]]. simpl in *. rewrite Hl. congruence.
+Qed.
+
+(* a key whose cache entry is absent can be taken out of the tainted set *)
+Lemma inv_untaint s k : Inv s -> find k (cache s) = None -> forall k' i, find k' (cache s) = Some i ->
+  exists n, find k' (file_of s) = Some n /\ (seen (filt s) n = i \/ (T k' /\ k' <> k)).
+Proof.
+  intros I Hc k' i H. destruct (inv_cache _ I k' i H) as [n [Hn [Hb|Hb]]]; exists n; split; auto.
+  right. split; [assumption|]. intros ->. congruence.
 Qed.
 
 (* THE HANDLES' FILTERS NEVER REACH THE FILE: the stored content (and hence the key set and every outcome) after a
    history does not depend on the filters the artifacts were opened with *)
 Lemma spec_step_erase m o : spec_step m (erase o) = spec_step m o.
 Proof.
-  destruct o as [| | | | |f]; try reflexivity. simpl. rewrite (Z.leb_antisym f 0).
+  destruct o as [| | | | |f|]; try reflexivity. simpl. rewrite (Z.leb_antisym f 0).
   destruct (f <? 0) eqn:E; simpl; reflexivity.
 Qed.
 Lemma spec_run_erase ops : forall m, spec_run m (map erase ops) = spec_run m ops.
 Proof. induction ops as [|o r IH]; intros m; simpl; [reflexivity|]. now rewrite spec_step_erase, IH. Qed.
 
-Theorem filter_independent ops ops' : map erase ops = map erase ops' ->
+Theorem filter_independent ops ops' : muts_ok ops -> muts_ok ops' -> map erase ops = map erase ops' ->
   (forall k, find k (file_of (run init ops)) = find k (file_of (run init ops'))) /\
   (forall k, In k (keys (run init ops)) <-> In k (keys (run init ops'))) /\
   (forall o, is_rej (snd (step (run init ops) o)) = is_rej (snd (step (run init ops') o))).
 Proof.
-  intros E.
-  pose proof (run_refines ops init [] inv_init (fun k => eq_refl)) as R1.
-  pose proof (run_refines ops' init [] inv_init (fun k => eq_refl)) as R2.
+  intros M1 M2 E.
+  pose proof (run_refines ops init [] inv_init M1 (fun k => eq_refl)) as R1.
+  pose proof (run_refines ops' init [] inv_init M2 (fun k => eq_refl)) as R2.
   assert (Em : spec_run [] ops = spec_run [] ops') by (rewrite <- (spec_run_erase ops), <- (spec_run_erase ops'), E; reflexivity).
-  pose proof (run_inv ops init inv_init) as I1. pose proof (run_inv ops' init inv_init) as I2.
+  pose proof (run_inv ops init inv_init M1) as I1. pose proof (run_inv ops' init inv_init M2) as I2.
   split; [|split].
   - intros k. now rewrite (R1 k), (R2 k), Em.
   - intros k. rewrite (keys_set _ _ I1 R1 k), (keys_set _ _ I2 R2 k), Em. tauto.
@@ -965,15 +1017,15 @@ Qed.
 
 (* ---------------------------------------------------------------------------------------------------------- *)
 (* CLEARING THE CACHE AND RE-OPENING ARE NEUTRAL                                                               *)
-Theorem clear_reopen_neutral s o ops : Inv s -> (o = ClearCache \/ o = Reopen (filt s)) ->
+Theorem clear_reopen_neutral s o ops : (forall k, ~ T k) -> muts_ok ops -> Inv s -> (o = ClearCache \/ o = Reopen (filt s)) ->
   (forall k, abs (fst (step s o)) k = abs s k) /\ keys (fst (step s o)) = keys s /\
   outs (fst (step s o)) ops = outs s ops.
 Proof.
-  intros I Ho.
+  intros HT Hm I Ho.
   assert (S : sim s (fst (step s o))).
   { pose proof (inv_filt _ I) as Hf. apply Z.ltb_ge in Hf.
     destruct Ho as [-> | ->]; simpl; [|rewrite Hf; simpl]; (split; [|reflexivity]); simpl; repeat split; auto. apply (inv_ks _ I). }
-  assert (I' : Inv (fst (step s o))) by (now apply step_inv).
+  assert (I' : Inv (fst (step s o))) by (apply step_inv; [assumption | intros k j E; destruct Ho as [-> | ->]; discriminate]).
   repeat split.
   - intros k. unfold abs. destruct S as [[Hf _] _]. now rewrite <- (Hf k).
   - destruct S as [[_ [_ Hk]] _]. now symmetry.
@@ -981,6 +1033,56 @@ Proof.
 Qed.
 
 End Proofs.
+
+Definition Any (k : key) : Prop := True.          (* loaded objects may have been changed in place, for any key *)
+Definition Nobody (k : key) : Prop := False.      (* no loaded object is ever changed in place *)
+Definition no_mutation (ops : list op) : Prop := forall k j, ~ In (Mutate k j) ops.
+
+Lemma muts_ok_intro (T : key -> Prop) ops : (forall k j, In (Mutate k j) ops -> T k) -> muts_ok T ops.
+Proof.
+  induction ops as [|o r IH]; intros H; simpl; [exact I|]. split.
+  - intros k j ->. apply (H k j). now left.
+  - apply IH. intros k j Hin. apply (H k j). now right.
+Qed.
+Lemma muts_ok_any ops : muts_ok Any ops.
+Proof. apply muts_ok_intro. intros; exact I. Qed.
+Lemma muts_ok_nobody ops : no_mutation ops -> muts_ok Nobody ops.
+Proof. intros H. apply muts_ok_intro. intros k j Hin. exact (H k j Hin). Qed.
+
+(* forgetting about a key whose cache entry is absent *)
+Lemma inv_narrow rt view (T : key -> Prop) s k : Inv rt view T s -> find k (cache s) = None -> Inv rt view (fun x => T x /\ x <> k) s.
+Proof.
+  intros I Hc. pose proof (inv_untaint rt view T s k I Hc) as Hu. destruct I; constructor; assumption.
+Qed.
+
+(* LOAD RETURNS THE ROUNDTRIP OF THE LAST WRITTEN DATA.  GUARD (open finding F-AL): the caller changes in place no object
+   that a load of this key returned after the write *)
+Theorem load_last_written rt view s o0 k d n post : Inv rt view Any s -> (o0 = Write k d \/ o0 = Replace k d) ->
+  node_of d = Some n -> snd (step rt view s o0) = Done -> (forall o, In o post -> touches k o = false) ->
+  (forall j, ~ In (Mutate k j) post) ->
+  find k (file_of (run rt view s (o0 :: post))) = Some n /\
+  snd (step rt view (run rt view s (o0 :: post)) (Load k)) = Loaded (seen rt view (filt (run rt view s (o0 :: post))) n).
+Proof.
+  intros I Ho Hn Hd Hpost Hnm. simpl.
+  assert (I1 : Inv rt view Any (fst (step rt view s o0))).
+  { apply step_inv; [assumption|]. intros k0 j0 _. exact Logic.I. }
+  destruct (written_node rt view Any s o0 k d n I Ho Hn Hd) as [Hf Hc].
+  apply (load_untouched rt view (fun x => Any x /\ x <> k) _ k n post (inv_narrow _ _ _ _ k I1 Hc) Hf Hpost).
+  - apply muts_ok_intro. intros k' j Hin. split; [exact Logic.I|]. intros ->. exact (Hnm j Hin).
+  - intros [_ H]. now apply H.
+Qed.
+
+(* ... and the guard is needed: the unguarded statement is false of the code as it stands (F-AL) *)
+Lemma load_last_written_refuted :
+  let rt := fun (_ : bool) (i : Z) => i in let view := fun (_ i : Z) => i in
+  let post := [Load [5; 6]; Mutate [5; 6] 99] in
+  snd (step rt view init (Write [5; 6] (DJson 10))) = Done /\
+  (forall o, In o post -> touches [5; 6] o = false) /\
+  snd (step rt view (run rt view init (Write [5; 6] (DJson 10) :: post)) (Load [5; 6])) = Loaded 99 /\
+  abs rt (run rt view init (Write [5; 6] (DJson 10) :: post)) [5; 6] = Some 10.
+Proof.
+  simpl. repeat split; try reflexivity. intros o [<-|[<-|[]]]; reflexivity.
+Qed.
 
 (* ---------------------------------------------------------------------------------------------------------- *)
 (* FILTER TERMS ONLY RESTRICT                                                                                  *)
